@@ -172,6 +172,14 @@ Definition quals_ok_b (fs : fsys) (root : list ident) : bool :=
       (key_eqb (snd (fst a)) (snd (fst b)) && implb (is_wild (snd a)) (is_wild (snd b))))
     (qual_uses fs root)) (qual_uses fs root).
 
+(* ---- REPL sessions: the module top levels that ran, over all inputs of the session *)
+(* an entry's / a REPL input's own event has key []; a module's event the dotted path it was first
+   imported under *)
+Definition is_mod_event (ev : event) : bool := negb (key_eqb (ev_key ev) []).
+Definition mtrace_of (evs : list event) : list fpath := map ev_file (filter is_mod_event evs).
+Definition session_events (rs : list (res (list event))) : list event :=
+  flat_map (fun r => match r with Ok evs => evs | Err _ evs => evs | Fuel => [] end) rs.
+
 (* ---- concrete trees used by the refutation theorems, the regression examples (trees that refuted
         the property before the repairs) and the non-vacuity example of Props/C19.v *)
 Definition imp (p : key) (f : form) : import := {| i_path := p; i_form := f |}.
